@@ -220,15 +220,24 @@ def large_cases(tier):
         for handle in HANDLES:
             for commit in (True, False):
                 yield {"op": op, "handle": handle, "commit": commit, "n": 2300}
+    # several MiB in one transaction (more than sqlite keeps in its page cache), over a table that already holds thousands of
+    # rows: all-or-nothing must not depend on the transaction fitting in memory
+    for op in ("todb", "appenddb"):
+        # (file-name handle: petl owns and closes the connection; with a caller-owned connection sqlite keeps the file locked
+        #  for other connections until the CALLER ends the spilled transaction - not petl's to decide)
+        for handle in ("filename",):
+            yield {"op": op, "handle": handle, "commit": True, "n": 5000, "cell": 1500, "prior_n": 4000, "faults": [4600, 5001]}
 
 
 def check_large(case, ctx):
     """Same oracle as `check`, on a table of 2300 rows with faults at data rows 1000, 1001, 2000 and at exhaustion (a loader
     that commits per batch would persist the first batches)."""
     n = case["n"]
-    c = {"header": ["a", "b"], "prior": [[-1, "old"], [-2, "older"]], "new": [[i, "r%d" % i] for i in range(n)], "op": case["op"],
-         "handle": case["handle"], "commit": case["commit"], "source_kind": "list", "schema": "none", "faults": [None, 1001, 1002, 2001, n + 1],
-         "fault_kinds": ["plain", "type", "index", "key"]}
+    pad = "x" * case.get("cell", 0)
+    prior = [[-1, "old"], [-2, "older"]] if not case.get("prior_n") else [[-i, "old%d" % i + pad] for i in range(1, case["prior_n"] + 1)]
+    c = {"header": ["a", "b"], "prior": prior, "new": [[i, "r%d" % i + pad] for i in range(n)], "op": case["op"],
+         "handle": case["handle"], "commit": case["commit"], "source_kind": "list", "schema": "none",
+         "faults": case.get("faults") or [None, 1001, 1002, 2001, n + 1], "fault_kinds": ["plain", "type", "index", "key"]}
     return check(c, ctx)
 
 
